@@ -135,7 +135,7 @@ pub fn run(ctx: &mut Ctx) {
                 non-trivial = async or depth >= 2; distinct = distinct program text"
         .into();
     ctx.assumptions.push("detects allocation and `dyn`/`Box` tokens, not every conceivable form of dynamic dispatch; debug build (opt-level 0), so nothing is optimised away on either side".into());
-    let n = ctx.n(300, 5000) as usize;
+    let n = ctx.n(1000, 10000) as usize;
     let tapes = crate::drive::gen_tapes(ctx.seed, 1400, n, TAPE_LEN);
     let cases: Vec<Case> = tapes.iter().map(|tp| gen_case(&mut Tape::new(tp))).collect();
     let mut batch = Batch::new("c14", Opts { feature_unimock: false, members: 16, ..Default::default() });
